@@ -19,6 +19,9 @@ CLAIMS["C15"] = ("proof", "contract-based deductive verification with a ghost ca
 CLAIMS["C09"] = ("proof", "contract-based deductive verification: WP VCs over go/ssa of the real functions, ghost variables for delegated sub-conditions, discharged by z3/cvc5",
          "Unbounded proof that Match.IsMatch is exactly the conjunction of the documented conditions (command, state, kind, fully anchored path and name patterns, label, annotation, for and keep_firing_for with their comparison operator), that label/annotation conditions are an existential over the merged group+rule label view with both patterns anchored, that config.isMatch is 'no ignore block holds and (no match block or some match block holds)' with no block skipped, that the state default depends on the command (defaultMatchStates, defaultRuleMatch), plus stateMatches, durationMatch.isMatch, parseMatchOperation, strictRegex; and that merging rule labels into group labels (parser.MergeMaps/setValue) keeps every group label key visible and leaves the group's own labels unchanged.",
          "regexp matching, duration parsing and context lookup are uninterpreted (trusted contracts on parseDuration, parseDurationMatch, commandFromContext; A5 on regexp); nil-safety of YAML item pointers assumed", "DESIGN.md §7 C09")
+CLAIMS["C08"] = ("proof", "contract-based deductive verification: WP VCs over go/ssa, ghost call traces, class-hierarchy dispatch of Reporter()/String()/Meta() in specifications; discharged by z3/cvc5",
+         "Unbounded proof that every check is registered under the name its own Reporter() returns (precondition of baseParsedRule/newParsedRule, an obligation at all 35 registration sites in baseRules, config.parseRule and GetChecksForEntry), that config.isEnabled disables a check iff its name (or String()) is listed / it is not in a non-empty enabled list / a rule comment disables it and the block is not locked, with AlwaysEnabled checks immune, and that parsedRule.isEnabled consults the state gate, file-level disables, every matching rule{} block (disable in any matching block wins; no block skipped before enabling) and then the global lists, always with the check's own name.",
+         "A11: String()/Reporter()/Meta() of check values are deterministic, effect-free functions of the receiver; slices.Contains per A5; regexp matching of --disabled patterns and the tag-suffixed name form are outside the contract; Problem.Reporter of emitted problems is not yet under contract", "DESIGN.md §7 C08")
 NA = {
  "C19": "two-run relational property of two recursive traversals over a third-party AST (yaml.Node) quantified over wrappers of arbitrary depth; no contract within reach of the generator can state it (DESIGN.md §8)",
 }
